@@ -126,6 +126,7 @@ CHECKS = {
     "C17": {
         "runs": [
             R("./ruleset", "^TestC17", {"checks": 20000, "timeout": 300}, {"checks": 150000, "shards": 16, "timeout": 1200}),
+            R("./bind", "^TestC17Delivery", {"checks": 3000, "timeout": 300}, {"checks": 60000, "shards": 4, "timeout": 1200}),
         ],
         "fuzz": [{"pkg": "./ruleset", "target": "FuzzC17", "time": "60s"}],
     },
